@@ -43,6 +43,22 @@ pub fn denull(v: &mut Value) {
     }
 }
 
+/// TLC-friendly structural description of a serde_json value (TLC's JSON reader has no floats / nulls)
+pub fn tree_desc(v: &Value) -> Value {
+    match v {
+        Value::Null => json!({"t": "null"}),
+        Value::Bool(b) => json!({"t": "bool", "b": b}),
+        Value::Number(n) => {
+            let r = n.to_string();
+            let x = r.parse::<f64>().unwrap_or(f64::NAN);
+            json!({"t": "num", "r": txt(&r), "x": crate::num::enc_f64(x)})
+        }
+        Value::String(s) => json!({"t": "str", "s": txt(s)}),
+        Value::Array(a) => json!({"t": "arr", "items": a.iter().map(tree_desc).collect::<Vec<_>>()}),
+        Value::Object(o) => json!({"t": "obj", "keys": o.keys().cloned().collect::<Vec<_>>(), "vals": o.values().map(tree_desc).collect::<Vec<_>>()}),
+    }
+}
+
 pub fn cps(s: &str) -> Vec<u32> {
     s.chars().map(|c| c as u32).collect()
 }
@@ -492,21 +508,22 @@ macro_rules! serde_ops {
                 let text = $crate::ops::guard(|| serde_json::to_string(&q).map_err(|e| e.to_string()));
                 let utree = $crate::ops::guard(|| serde_json::to_value(&us[u]).map_err(|e| e.to_string()));
                 let flat = |r: Result<Result<Value, String>, String>| match r { Ok(Ok(v)) => json!({"ok": v}), Ok(Err(e)) => json!({"err": e}), Err(p) => json!({"panic": p}) };
+                let flat_t = |r: &Result<Result<Value, String>, String>| match r { Ok(Ok(v)) => json!({"ok": $crate::ops::tree_desc(v)}), Ok(Err(e)) => json!({"err": e}), Err(p) => json!({"panic": p}) };
                 let back_tree = match &tree {
                     Ok(Ok(t)) => flat($crate::ops::guard(|| serde_json::from_value::<$Q>(t.clone()).map(|z| show(&z)).map_err(|e| e.to_string()))),
-                    _ => Value::Null,
+                    _ => json!({"err": "no tree"}),
                 };
                 let back_text = match &text {
                     Ok(Ok(t)) => flat($crate::ops::guard(|| serde_json::from_str::<$Q>(t).map(|z| show(&z)).map_err(|e| e.to_string()))),
-                    _ => Value::Null,
+                    _ => json!({"err": "no text"}),
                 };
                 let uback = match &utree {
                     Ok(Ok(t)) => flat($crate::ops::guard(|| serde_json::from_value::<$U>(t.clone()).map(|z| json!(format!("{:?}", z))).map_err(|e| e.to_string()))),
-                    _ => Value::Null,
+                    _ => json!({"err": "no unit tree"}),
                 };
                 let text_v = match text { Ok(Ok(s)) => json!({"ok": $crate::ops::txt(&s)}), Ok(Err(e)) => json!({"err": e}), Err(p) => json!({"panic": p}) };
                 json!({"T": $tn, "v": {"a": enc(a), "u": format!("{:?}", us[u])},
-                       "tree": flat(tree), "text": text_v, "unit_tree": flat(utree),
+                       "tree": flat_t(&tree), "text": text_v, "unit_tree": flat_t(&utree),
                        "back_tree": back_tree, "back_text": back_text, "unit_back": uback})
             }),
         });
